@@ -835,11 +835,13 @@ def run(ctx: Ctx) -> None:
                n=2, rich="TRUE", maxev=2, allkw="FALSE", maxh=1)
             mc("LBSpec N=3, valid cuts, pipeline()/run()/func() convention", "b3", 2, heap="2g", nshards=3, modes='{"call"}',
                n=3, rich="FALSE", maxev=2, allkw="FALSE", maxh=1)
-            mc("LBSpec N=2, valid cuts, fault plans, up to 2 evaluate() calls that raise per handle, 2 handles per "
-               "construct_dag block", "b2f", 2, heap="3g", nshards=4, faults="TRUE", maxfail=2, n=2, rich="FALSE", maxev=2,
-               allkw="FALSE", maxh=2)
-            mc("LBSpec N=2, valid cuts, fault plans, user cache", "b2fc", 2, heap="3g", nshards=2, modes='{"call"}', ucache="TRUE",
-               faults="TRUE", maxfail=2, n=2, rich="FALSE", maxev=2, allkw="FALSE", maxh=1)
+            mc("LBSpec N=2, valid cuts, fault plans, up to 2 evaluate() calls that raise per handle", "b2f", 2, heap="2g",
+               nshards=4, faults="TRUE", maxfail=2, n=2, rich="FALSE", maxev=2, allkw="FALSE", maxh=1)
+            mc("LBSpec N=2, valid cuts, fault plans, 2 handles per construct_dag block, pipeline() convention", "b2fs", 2,
+               heap="2g", nshards=4, modes='{"call"}', faults="TRUE", maxfail=2, n=2, rich="FALSE", maxev=2, allkw="FALSE", maxh=2)
+            mc("LBSpec N=2, valid cuts, fault plans, user cache, pipeline() convention", "b2fc", 2, heap="3g", nshards=8,
+               shards=[4, 5], modes='{"call"}', ucache="TRUE", faults="TRUE", maxfail=2, n=2, rich="FALSE", maxev=2,
+               allkw="FALSE", maxh=1)
             mc("EBSpec N=2 rich, valid cuts, fault plans: the eager twin", "e2f", 2, heap="2g", faults="TRUE", maxfail=2,
                spec="EBSpec", n=2, rich="TRUE", maxev=2, allkw="FALSE", maxh=1)
             exports = [("LUSpec N=2 rich", dict(n=2, rich="TRUE"), "u2r", "3g", "full"),
